@@ -6,7 +6,9 @@ PROPERTY = "C02"
 DRIVER = "drv_rev"
 THEOREMS = common.THEOREMS["C02"]
 PARTIAL = common.PARTIAL.get("C02", {})
-TRUSTED = rev_corr.REV_TRUSTED
+TRUSTED = list(rev_corr.REV_TRUSTED) + [
+    "which absolute targets `<branch>@<full revision id>` name a revision and a branch for the `refused-target` oracle is decided by harness/rev_corr.denoted_qualified from the history alone (the qualifier through denoted_plain); the refusal is held against the proved model's plan",
+]
 RULE = common.RULE
 ASSUMPTIONS = common.ASSUMPTIONS
 
